@@ -150,8 +150,8 @@ PROPS = {
                     "oracle on the implementation alone",
             "note": "model fidelity is sampled on every run (simulated kernel: vsys shim); real sockets are not part of this check",
             "technique": _TECH},
-        "lean": ["NbioVerif.Properties.C01"], "drivers": ["conndrv"], "harness": ["hconn"],
-        "runs": [_run(["n", "err", "ow", "cb", "rc", "deliv", "closed", "wire", "onclose"]), _real([])],
+        "lean": ["NbioVerif.Properties.C01", "NbioVerif.Properties.ConnTimer"], "drivers": ["conndrv"], "harness": ["hconn"],
+        "runs": [_run(["n", "err", "ow", "cb", "rc", "deliv", "closed", "wire", "onclose", "wtimer"]), _real([])],
         "oracles": ["c01-"], "cs": _CS,
         "rule": "case = (stream type, epoll mode, bound, calls inside the open callback, op sequence with scripted kernel answers); distinct by "
                 "hash of (cell, per op: kind, error class, delivered event parts, queue length class, closed); non-trivial iff a backlog existed "
